@@ -17,6 +17,16 @@ table = "\n".join("| `%s` | %s |" % (f.split(" ", 1)[0], f.split(" ", 1)[1][5:])
 d = re.sub(r"\*\*Repaired \(\d+ `fix:` commits, in order\):\*\*\n\n\| commit \| defect \|\n\|---\|---\|\n(?:\|.*\|\n)+",
            "**Repaired (%d `fix:` commits, in order):**\n\n| commit | defect |\n|---|---|\n%s\n" % (len(fixes), table), d)
 
+# --- open findings in §7 (from KNOWN_FINDINGS.txt)
+opens = []
+for l in open(f"{ROOT}/KNOWN_FINDINGS.txt"):
+    m = re.match(r"open: property=(\S+) sig=(\S+) witness=(\S+) (.*)", l.strip())
+    if m:
+        opens.append(m.groups())
+otable = "\n".join("| %s | `%s` | `%s` | %s |" % (a, b, c, t.replace("|", "\\|")) for a, b, c, t in opens)
+d = re.sub(r"\*\*Open known findings \(\d+; listed in KNOWN_FINDINGS.txt with witness files under findings/\):\*\*\n\n(?:\|.*\|?\n)+",
+           "**Open known findings (%d; listed in KNOWN_FINDINGS.txt with witness files under findings/):**\n\n| property | signature | witness | what fails, and why it is recorded rather than repaired |\n|---|---|---|---|\n%s\n" % (len(opens), otable), d)
+
 # --- appendix A
 notes = open(f"{ROOT}/NOTES-false-alarms.md").read()
 notes = notes.split("\n", 1)[1] if notes.startswith("#") else notes
@@ -77,6 +87,23 @@ notes_strength = {
  "agent3-C16": "strengthened: caught at first by one random mutation only; multi-byte / zero-width / control characters next to every special character in every lexical position, at top level and inside called macro bodies; dictionary lines also inside macro bodies and conditional branches (this also found a genuine panic, fixed in 7410e14)",
  "agent3-C17": "strengthened: missed at first; builds ending at the assembler's own resource limits added to C17's pool; generic 'hostile history' (fw.rs) runs such builds before every 16th in-process build of every monitor",
  "agent3-C18": "caught as the check stood (demo.sh adapted to run in the tree it is started in)",
+ "agent4-C01": "strengthened: missed by C01 at first (C10 caught it as it stood); C01's operand-path slice now also writes the definitions that count inside .dseg/.eseg, replacing stale ones",
+ "agent4-C02": "caught as the check stood",
+ "agent4-C03": "strengthened: missed at first; the target as macro parameter with 0-2 instructions in front of the branch inside the body, at both limits and one beyond",
+ "agent4-C04": "strengthened: missed at first; malformed literals ('AB', '10', '', unterminated, `1 2`) among the operand-kind confusions",
+ "agent4-C05": "strengthened: missed at first; the argument combined with an operator on the line of a nested call (`inner 2 * @0`, `inner 0 - @0`)",
+ "agent4-C06": "caught as the check stood",
+ "agent4-C07": "strengthened: missed at first; half of the images hold whole records of 0xFF / 0x00 / ':' / CR / LF at the start, the end and around every 64 KiB boundary, or are erased flash with one programmed byte",
+ "agent4-C08": "strengthened: missed at first; macros with an optional last parameter (unselected branches name parameters the call does not pass, or hold garbage around an @n)",
+ "agent4-C09": "strengthened: missed by C09 at first (C02 caught it as it stood); C09 now builds 'placing bodies' (.org as first / middle / last body line in all three segments, nested, caller going on behind the call) against the program written out",
+ "agent4-C11": "strengthened: missed at first; half of the trees hold a file that is included two or three times and guards parts of itself (.ifndef G / .define G / ... / .else / ... / .endif, or a guarded head followed by unguarded lines)",
+ "agent4-C12": "strengthened: missed at first; `.equ` definitions of the part files' symbol names (SRAM_SIZE, E2END, FLASHEND ... in mixed case) with much smaller / larger values behind the .device line",
+ "agent4-C13": "strengthened: missed at first; every kind of inert line (.csegsize 10/12/14/16, #pragma, unused definitions, unselected .device, other segments with content) between .device and a forbidden form, per device",
+ "agent4-C14": "caught as the check stood",
+ "agent4-C15": "caught as the check stood",
+ "agent4-C16": "strengthened: missed at first; symbol cycles and doubling ladders with every round passing through each function, unary operator, parentheses, comparison",
+ "agent4-C17": "strengthened: missed at first; failing programs whose unknown name begins several known names (functions, mnemonics, directives, devices, symbols) added to the pool",
+ "agent4-C18": "caught as the check stood",
 }
 for f in sorted(glob.glob(f"{ROOT}/seeded/*/meta.json")):
     m = json.load(open(f))
@@ -86,6 +113,7 @@ for f in sorted(glob.glob(f"{ROOT}/seeded/*/meta.json")):
     summ = (m.get("summary", "")[:170] + "…").replace("\n", " ").replace("|", "/")
     need = (m.get("needs_to_manifest", "")[:150] + "…").replace("\n", " ").replace("|", "/")
     d += f"| {sid} | {m.get('property')} | {summ} **Needs:** {need} | {caught} | {notes_strength.get(sid, m.get('strengthened_note', ''))} |\n"
+d += "\nNot kept: the fourth-round change for C10 made `pc` evaluate to 0 inside `.dseg` (`.dseg` / `.set base = pc`). Its demo was confirmed, but what `pc` means in a data segment is stated neither by C10 nor by the AVR assembler manual (PC is the program memory counter there), and the pinned tree itself does not advance `pc` past `.byte` in `.dseg`; a check for it would demand more than the property states, so the change was not kept as a C10 break. Baseline observations that the fourth-round agents recorded are in the `baseline_observations` of `seeded/agent4-*/meta.json`; section 7 says what became of each.\n"
 d += "\n### B.2 Own seeded breaks (`selftest/mutants.py run`) and benign edits (`selftest/mutants.py benign`)\n\n| mutant | property | edit | suite green | result | first signatures |\n|---|---|---|---|---|---|\n"
 for r in res:
     if "mutant" in r:
